@@ -45,7 +45,7 @@ var rProtocol = &Rule{
 				continue
 			}
 			found := false
-			sx.EachInstr(fn, func(in ssa.Instruction) {
+			regionOf(fn).each(func(in ssa.Instruction) {
 				ta, ok := in.(*ssa.TypeAssert)
 				if !ok || !ta.CommaOk {
 					return
@@ -64,7 +64,7 @@ var rProtocol = &Rule{
 		// As: assignability is tested before the node's own As method (stdlib order)
 		if fn := p.Func("errutil", "As"); fn != nil {
 			var assign, probe ssa.Instruction
-			sx.EachInstr(fn, func(in ssa.Instruction) {
+			regionOf(fn).each(func(in ssa.Instruction) {
 				switch x := in.(type) {
 				case *ssa.Call:
 					if x.Call.IsInvoke() && x.Call.Method.Name() == "AssignableTo" {
@@ -76,7 +76,7 @@ var rProtocol = &Rule{
 					}
 				}
 			})
-			ok := assign != nil && probe != nil && assign.Block() != probe.Block() && assign.Block().Dominates(probe.Block())
+			ok := assign != nil && probe != nil && assign.Parent() == probe.Parent() && assign.Block() != probe.Block() && assign.Block().Dominates(probe.Block())
 			c.Check(ok, "errutil.As: assignability before the As method", fn.Pos(), "reflect AssignableTo test dominates the As-method probe", "As consults a node's own As method before testing whether the node itself is assignable: a different value than the standard errors.As is assigned")
 		}
 		// UnwrapOnce: Cause is tested before Unwrap (pkg/errors precedence), returns the method's result
@@ -213,7 +213,8 @@ func runWalkMulti(c *core.Ctx) {
 						continue
 					}
 					callee := sx.Callee(call)
-					if callee != nil && (callee == target || reaches(callee, target)) {
+					if callee != nil && (callee == target || callee == fn || reaches(callee, target)) {
+						// (callee == fn: a helper of the walker that recurses into itself)
 						found = true
 					}
 				}
@@ -237,7 +238,8 @@ func runWalkMulti(c *core.Ctx) {
 		}
 		n++
 		ok, why := false, "no range over errbase.UnwrapMulti(node) with a recursive call on the element"
-		sx.EachInstr(fn, func(in ssa.Instruction) {
+		// the walk may sit in an unexported helper of the walker (which then recurses into the walker or into itself)
+		regionOf(fn, um).each(func(in ssa.Instruction) {
 			call, isCall := in.(*ssa.Call)
 			if !isCall || sx.Callee(call) != um {
 				return
@@ -262,7 +264,7 @@ func runWalkMulti(c *core.Ctx) {
 				why = "UnwrapMulti is not applied to the walker's own node parameter"
 				return
 			}
-			rec, fwd := elementRecursion(fn, call, fn)
+			rec, fwd := elementRecursion(call.Parent(), call, fn)
 			if rec && fwd {
 				ok = true
 			} else if rec {
